@@ -115,8 +115,8 @@ def _layout(arr: np.ndarray, layout: str) -> np.ndarray:
         return np.array(arr, order="F")  # (asfortranarray would turn a 0-d array into 1-d)
     if layout == "view":
         big = np.empty((2, *arr.shape), dtype=arr.dtype)
-        big[0] = arr
-        big[1] = arr
+        big[0, ...] = arr  # (element-wise; "big[0] = arr" would store a 0-d object array as one element)
+        big[1, ...] = arr
         return big[1, ...]
     if layout == "strided" and arr.ndim >= 1:
         big = np.empty((*arr.shape[:-1], arr.shape[-1] * 2), dtype=arr.dtype)
@@ -666,6 +666,7 @@ def s_reorderable():
 EQUAL_OPS = ["reorder", "same", "rebuffer"]
 # Hypothesis favours the first/last alternative: the generic edits sit in the middle
 DIFFER_OPS = ["index_order", "dtype", "shape", "retype", "leaf", "length", "name", "index", "columns_order", "order"]
+TOWER_OPS = ["tower"]  # intended "neither": 1 <-> 1.0 <-> True
 SEQ = ("tuple", "list", "deque")
 MAPS = ("dict", "odict", "ddict")
 
@@ -869,6 +870,22 @@ def mutate(draw, a, op):
         parent_kind = _parent_kind(b, p)
         new = copy.deepcopy(_c_from(draw, (cands)))
         return pset(b, p, new), parent_kind + ("/in-obj" if info["inobj"] else "")
+
+    if op == "tower":
+        def sibling(v):
+            if isinstance(v, bool):
+                return int(v)
+            if isinstance(v, int) and abs(v) < 2**40:
+                return float(v)
+            if isinstance(v, float) and v.is_integer() and abs(v) < 2**40:
+                return int(v)
+            return None
+
+        got = pick([(p, n, i) for p, n, i in nodes if p and i["pool"] is None and sibling(n) is not None])
+        if not got:
+            return b, None
+        p, n, info = got
+        return pset(b, p, sibling(n)), _parent_kind(b, p)
 
     if op == "length":
         got = pick([(p, n, i) for p, n, i in nodes
@@ -1152,29 +1169,27 @@ def _key_of(v, out: Outcome, feats: set, what: str):
     return True, key
 
 
-def _innermost_diff(v1, v2):
-    """Descend while both values are same-typed containers of equal length with exactly one differing child."""
-    while True:
-        if type(v1) is not type(v2):
-            return v1, v2
-        t = type(v1)
+def _diff_pairs(v1, v2, acc: list) -> list:
+    """The innermost places where two values differ (descending through aligned same-typed containers)."""
+    t = type(v1)
+    pairs = None
+    if t is type(v2):
         if t in (list, tuple, collections.deque) and len(v1) == len(v2):
             pairs = list(zip(v1, v2))
         elif t in (dict, collections.OrderedDict, collections.defaultdict) and list(v1) == list(v2):
             pairs = [(v1[k], v2[k]) for k in v1]
         elif isinstance(v1, _Plain) and list(v1.__dict__) == list(v2.__dict__):
             pairs = [(v1.__dict__[k], v2.__dict__[k]) for k in v1.__dict__]
-        else:
-            return v1, v2
-        bad = [(x, y) for x, y in pairs if canon(x, True) != canon(y, True)]
-        if len(bad) != 1:
-            return v1, v2
-        v1, v2 = bad[0]
+    if pairs is None:
+        acc.append((v1, v2))
+        return acc
+    for x, y in pairs:
+        if canon(x, True) != canon(y, True):
+            _diff_pairs(x, y, acc)
+    return acc
 
 
-def _collision_cause(va, vb):
-    """Name the root cause of 'different values, equal keys' for pandas objects (else None)."""
-    x, y = _innermost_diff(va, vb)
+def _pandas_cause(x, y) -> str:
     if type(x) is pd.DataFrame and type(y) is pd.DataFrame:
         cx, cy = canon(x, False), canon(y, False)
         if cx[2] == cy[2]:  # same columns, same order, same positional values -> only the index differs
@@ -1182,7 +1197,7 @@ def _collision_cause(va, vb):
         if cx[1] == cy[1] and sorted(cx[2], key=repr) == sorted(cy[2], key=repr):
             return "DataFrame-column-order-not-in-key"
         if sorted(cx[2], key=repr) == sorted(cy[2], key=repr):
-            return "DataFrame-index-and-column-order-not-in-key"
+            return "DataFrame-index-not-in-key+DataFrame-column-order-not-in-key"
         return "DataFrame-other"
     if type(x) is pd.Series and type(y) is pd.Series:
         if not (x.index.is_unique and y.index.is_unique):
@@ -1192,7 +1207,13 @@ def _collision_cause(va, vb):
         ):
             return "Series-row-order-not-in-key"
         return "Series-other"
-    return None
+    return type(x).__name__ if type(x) is type(y) else f"{type(x).__name__}-vs-{type(y).__name__}"
+
+
+def _collision_causes(va, vb) -> list:
+    """Root-cause names of 'different values, equal keys': what kinds of difference the key ignores."""
+    causes = {c for x, y in _diff_pairs(va, vb, []) for c in _pandas_cause(x, y).split("+")}
+    return sorted(causes) or ["no-difference-found"]
 
 
 def _fallback_cause(op):
@@ -1255,9 +1276,9 @@ def body_pair(data) -> Outcome:
             out.fail("equal-keys-unequal-hash:" + where, f"ka={ka!r} kb={kb!r}")
     elif rel == "differ":
         if eq:
-            cause = _collision_cause(va, vb)
-            bucket = "different-values-equal-keys:" + (cause or where)
-            out.fail(bucket, f"a={va!r} b={vb!r} key={ka!r}")
+            for cause in _collision_causes(va, vb):
+                bucket = "different-values-equal-keys:" + (cause if "not-in-key" in cause or "collapsed" in cause else where)
+                out.fail(bucket, f"a={va!r} b={vb!r} key={ka!r}")
     else:
         out.labels.append("neither-keys-" + ("equal" if eq else "unequal"))
     return out
@@ -1441,21 +1462,6 @@ def _make_cache(name):
     return DiskCache(d, with_lru_cache=False), d
 
 
-def _diff_kind(v1, v2) -> str:
-    """Type name of the innermost place where two argument structures differ (root-cause naming only)."""
-    if type(v1) is not type(v2):
-        return f"{type(v1).__name__}-vs-{type(v2).__name__}"
-    if type(v1) in (list, tuple) and len(v1) == len(v2):
-        bad = [(x, y) for x, y in zip(v1, v2) if canon(x, False) != canon(y, False)]
-        if len(bad) == 1:
-            return _diff_kind(*bad[0])
-    if type(v1) is dict and list(v1) == list(v2):
-        bad = [(v1[k], v2[k]) for k in v1 if canon(v1[k], False) != canon(v2[k], False)]
-        if len(bad) == 1:
-            return _diff_kind(*bad[0])
-    return type(v1).__name__
-
-
 def body_memo(data) -> Outcome:
     out = Outcome()
     data = _norm(data)
@@ -1498,9 +1504,9 @@ def body_memo(data) -> Outcome:
                 out.labels.append("tower-equal-call:" + ("hit" if hit else "miss"))
             if got != want:
                 src = [c for _, lo, c in seen if lo == got]
-                kind = _diff_kind(src[0], [list(args), kwargs]) if src else "unknown-origin"
-                out.fail("memoize-returned-result-of-different-call:" + kind,
-                         f"cache={data['cache']} call={call} got={got!r} want={want!r}")  # fmt: skip
+                for kind in _collision_causes(src[0], [list(args), kwargs]) if src else ["unknown-origin"]:
+                    out.fail("memoize-returned-result-of-different-call:" + kind,
+                             f"cache={data['cache']} call={call} got={got!r} want={want!r}")  # fmt: skip
             seen.append((strict, want, [list(args), kwargs]))
     finally:
         if tmpdir:
@@ -1516,10 +1522,11 @@ def body_memo(data) -> Outcome:
 
 @st.composite
 def s_memo(draw):
-    base = draw(s_value(2, top=True))
+    base = draw(S_MEMO_BASE)
     pool = [base]
+    app = applicable_ops(base, [*DIFFER_OPS[:5], *EQUAL_OPS, *DIFFER_OPS[5:]])
     for _ in range(draw(st.integers(1, 3))):
-        b, _t = mutate(draw, base, draw(st.sampled_from(EQUAL_OPS + DIFFER_OPS)))
+        b, _t = mutate(draw, base, draw(st.sampled_from(app)))
         pool.append(b)
     pool.append(draw(s_value(1)))
     calls = []
@@ -1531,6 +1538,8 @@ def s_memo(draw):
     return {"cache": draw(st.sampled_from(CACHES)), "calls": calls}
 
 
+S_MEMO_BASE = st.one_of(s_value(2, top=True), s_value(2, top=True), s_wrapped(s_series(2)), s_wrapped(s_df(2, 2)),
+                        s_wrapped(s_reorderable()), s_wrapped(s_nd()))  # fmt: skip
 S_CROSS_EXTRA = st.lists(st.sampled_from(FS_KEYS), min_size=2, max_size=3, unique_by=_hkey).map(_node("set"))
 
 
@@ -1542,17 +1551,17 @@ def campaigns(tier):
     base_equal = st.one_of(top, s_wrapped(s_reorderable()), s_wrapped(s_reorderable()), s_wrapped(s_nd()))
     base_look = st.one_of(top, top, top, s_wrapped(s_nd()), s_wrapped(s_series(2)), s_wrapped(s_df(2, 2)), s_wrapped(s_value(2)))
     return [
-        Campaign("equal", body_pair, s_pair(EQUAL_OPS, base_equal), quick=3000, thorough=60000,
+        Campaign("equal", body_pair, s_pair(EQUAL_OPS, base_equal), quick=3200, thorough=80000,
                  describe="pairs intended equal: same recipe, permuted insertion order, other array buffer"),
-        Campaign("lookalike", body_pair, s_pair(DIFFER_OPS, base_look), quick=6000, thorough=120000,
+        Campaign("lookalike", body_pair, s_pair(DIFFER_OPS[:5] + TOWER_OPS + DIFFER_OPS[5:], base_look), quick=6400, thorough=160000,
                  describe="pairs intended different: one structural edit (retype/leaf/length/order/dtype/shape/index/...)"),
-        Campaign("independent", body_pair, s_independent(), quick=1500, thorough=30000,
+        Campaign("independent", body_pair, s_independent(), quick=1600, thorough=40000,
                  describe="two independently drawn values"),
-        Campaign("hard", body_pair, s_hard(), quick=1200, thorough=20000,
+        Campaign("hard", body_pair, s_hard(), quick=1600, thorough=30000,
                  describe="un-orderable / partially ordered keys, object arrays with unhashable elements, duplicate labels"),
-        Campaign("cross", body_cross, cross, quick=160, thorough=2400,
+        Campaign("cross", body_cross, cross, quick=200, thorough=3000,
                  describe="batches of 14-15 recipes rebuilt in two worker interpreters with other hash seeds"),
-        Campaign("memo", body_memo, s_memo(), quick=1600, thorough=30000,
+        Campaign("memo", body_memo, s_memo(), quick=1600, thorough=40000,
                  describe="memoize-d tracer over call sequences, five cache configurations"),
     ]  # fmt: skip
 
